@@ -344,3 +344,90 @@ contract(
     crosscheck=False,
     note="2..3 single-chain inputs on enumerated layouts; covariance inputs not modelled",
 )
+
+
+# ---------------------------------------------------------------------------------------------------
+# reweight with SEVERAL observables in one call: every observable is paired with the weight on ITS OWN configurations
+
+class _TwoObs(Spec):
+    def __init__(self, sp):
+        self.sp = sp
+
+    def make(self, name, ctx, shape=None):
+        return CList([self.sp.make(name + "0", ctx, shape), self.sp.make(name + "1", ctx, shape)], "list")
+
+    def shapes(self, bound):
+        return self.sp.shapes(bound)
+
+    def native(self, value, ev):
+        return [self.sp.native(value.items[0], ev), self.sp.native(value.items[1], ev)]
+
+    def random(self, rng, shape=None):
+        return [self.sp.random(rng, shape), self.sp.random(rng, shape)]
+
+
+def _rw2_post(a, r):
+    from pyvc.driver import Namespace
+    out = {"two results": Len(r) == 2}
+    items = r.items if isinstance(r, CList) else list(r)
+    obs = a.obs.items if isinstance(a.obs, CList) else list(a.obs)
+    if len(items) != 2:
+        return out
+    for i in (0, 1):
+        sub = Namespace(dict(a.__dict__))
+        sub.__dict__["obs"] = CList([obs[i]], "list") if isinstance(a.obs, CList) else [obs[i]]
+        ri = CList([items[i]], "list") if isinstance(r, CList) else [items[i]]
+        for k, v in _rw_post(sub, ri).items():
+            if k != "one-result":
+                out["obs%d.%s" % (i, k)] = v
+    return out
+
+
+def _rw2_value_error(a):
+    from pyvc.driver import Namespace
+    obs = a.obs.items if isinstance(a.obs, CList) else list(a.obs)
+    conds = []
+    for i in (0, 1):
+        sub = Namespace(dict(a.__dict__))
+        sub.__dict__["obs"] = CList([obs[i]], "list") if isinstance(a.obs, CList) else [obs[i]]
+        conds.append(_rw_value_error(sub))
+    return Or(*conds)
+
+
+def _rw2_gen(rng, case):
+    g = _rw_gen(rng, {"weight": "list-in-list" if case["obs"] == "ll" else "list-in-range", "kwargs": case["kwargs"]})
+    g2 = None
+    for _ in range(20):
+        cand = _rw_gen(rng, {"weight": "list-in-list" if case["obs"] == "ll" else "list-in-range", "kwargs": case["kwargs"]})
+        if True:
+            g2 = cand
+            break
+    # both observables must live on the SAME weight: rebuild the second one on subsets of the first weight
+    w = g["weight"]
+    chains = {}
+    for cn in g["obs"][0].names:
+        sub = G.sub_idl(rng, w.idl[cn], "list")
+        tries = 0
+        while (sub is None or len(sub) < 5) and tries < 40:
+            sub = G.sub_idl(rng, w.idl[cn], "list")
+            tries += 1
+        if sub is None or len(sub) < 5:
+            sub = list(w.idl[cn])
+        chains[cn] = (list(sub), list(G.reals(rng, len(sub)) + 1.0))
+    o1 = native_obs_from({"chains": chains})
+    return {"weight": w, "obs": [g["obs"][0], o1], "kwargs": g["kwargs"]}
+
+
+contract(
+    REL + "::reweight", name=REL + "::reweight[two observables in one call]", props=["C05"], overrides={REL + "::Obs.__truediv__": _DIV_STUB},
+    params=dict(weight=OneOf(ll=_ObsOn(L1L, 5), lr=_ObsOn(L1R, 5)), obs=OneOf(ll=_TwoObs(_ObsOn(L1L, 5)), lr=_TwoObs(_ObsOn(L1L, 5))),
+                kwargs=OneOf(all=Custom(lambda n, c, s: CDict({"all_configs": True}), native=lambda v, ev: {"all_configs": True}),
+                             own=Custom(lambda n, c, s: CDict(), native=lambda v, ev: {}))),
+    cases_filter=lambda case: case["weight"] == case["obs"],
+    inline=[REL + "::Obs.mc_names", REL + "::Obs.cov_names", REL + "::Obs.covobs"],
+    raises=[("ValueError", _rw2_value_error)],
+    ensures=_rw2_post,
+    native_call=lambda args: __import__("pyvc.native", fromlist=["x"]).repo_module("pyerrors.obs").reweight(args["weight"], args["obs"], **args["kwargs"]),
+    gen=_rw2_gen, crosscheck=False, abstract_real=True,
+    note="two observables on independent configuration subsets of the same chain; the weight's chain is a list or a range",
+)
